@@ -35,6 +35,12 @@ COMPARE_KEYS = ["replies", "crashed", "alive", "user", "logged", "cwd", "rnfr", 
 DEAD_KEYS = ["replies", "crashed", "alive", "fs"]
 
 
+def canon_tree(tree):
+    """the token World.tree() gives for an untouched initial tree"""
+    items = [("|".join(enc_str(x) for x in path) + ("=D" if c is None else "=F" + enc_bytes(c))) for path, c in tree]
+    return ";".join(sorted(items)) if items else "~"
+
+
 def ev_line(text, payload=b""):
     return ("line", text if isinstance(text, bytes) else text.encode("utf-8"), payload)
 
@@ -90,6 +96,55 @@ async def _run_history(loop, users, tree, events, backend="memory", server_kwarg
         except Exception:
             wd.finish()
     return snaps
+
+
+async def _run_pipelined(loop, users, tree, lines, backend="memory", server_kwargs=None):
+    """all command lines in ONE segment, without waiting for replies in between; returns the final snapshot,
+    the reply codes in arrival order and the spy/listener counters"""
+    wd = W.World(loop, users, backend=backend, server_kwargs=server_kwargs)
+    await wd.start()
+    try:
+        wd.set_tree(tree)
+        raw = await wd.raw_client()
+        n0 = len(raw.replies)
+        raw.send_raw(b"".join((l if isinstance(l, bytes) else l.encode("utf-8")) + b"\r\n" for l in lines))
+        await loop.settle()
+        waited = 0.0
+        def finals():
+            return [c for c, _ in raw.replies[n0:] if not c.startswith("1")]
+        while waited < 6.0 and not raw.eof and len(finals()) < len(lines) and wd.connection_of(raw) is not None:
+            await asyncio.sleep(0.25)
+            waited += 0.25
+            await loop.settle()
+        codes = [int(c) if c.isdigit() else -1 for c, _ in raw.replies[n0:]]
+        snap = wd.snapshot(raw, codes, False)
+        raw.close()
+        await loop.settle()
+    finally:
+        try:
+            await wd.stop()
+        except Exception:
+            wd.finish()
+    return snap
+
+
+def run_pipelined(users, tree, lines, backend="memory", server_kwargs=None):
+    return simnet.run(_run_pipelined, users, tree, lines, backend, server_kwargs)
+
+
+def _pworker(job):
+    users, tree, lines = job
+    try:
+        return run_pipelined(users, tree, lines)
+    except BaseException as e:  # noqa
+        return "HARNESS-ERROR %s: %s" % (type(e).__name__, e)
+
+
+def run_many_pipelined(jobs, procs=None):
+    procs = procs or min(16, os.cpu_count() or 4)
+    ctx = multiprocessing.get_context("fork")
+    with ctx.Pool(procs) as pool:
+        return pool.map(_pworker, jobs, chunksize=max(1, len(jobs) // (procs * 8)))
 
 
 def run_history(users, tree, events, backend="memory", server_kwargs=None, family=socket.AF_INET):
